@@ -192,6 +192,8 @@ def from_world(v):
 
     if isinstance(v, types.GeneratorType):
         return [from_world(x) for x in v]
+    if callable(v) and hasattr(v, "_world_name"):
+        return "<function " + v._world_name + " of the world>"
     return v
 
 
@@ -241,6 +243,14 @@ def base_env(ds) -> dict:
     }
     for n in ("fn1", "calc"):
         env[n] = _generic(n)
+    # a query may yield one of these functions itself as (part of) its value ([Select, 1][0:1]): they are compared by name,
+    # not by the identity of the function object this call happened to create
+    for n, f in env.items():
+        if callable(f) and n != "ds":
+            try:
+                f._world_name = n
+            except AttributeError:
+                pass
     return env
 
 
